@@ -383,11 +383,22 @@ def mutable_default_stream(ctx, res, n):
         ("any", lambda: AnyField(default={"a": [1]}), lambda v: v["a"].append(2)),
         ("typed-nested", lambda: cc.ListField(cc.ListField(cc.IntField()), default=[[1], [2]]), lambda v: v[0].append(5)),
         ("callable", lambda: cc.ListField(cc.DictField(), default=lambda: [{"n": [1]}]), lambda v: v[0]["n"].append(2)),
+        # defaults that are falsy but valid: the empty containers (edited at their own, first level)
+        ("empty-untyped-dict", lambda: cc.DictField(default={}), lambda v: v.__setitem__("tier", "web")),
+        ("empty-untyped-list", lambda: cc.ListField(default=[]), lambda v: v.append("x")),
+        ("empty-any-dict", lambda: AnyField(default={}), lambda v: v.__setitem__("k", 1)),
+        ("empty-any-list", lambda: AnyField(default=[]), lambda v: v.append(1)),
+        ("empty-typed-dict", lambda: cc.DictField(cc.StringField(), cc.IntField(), default={}), lambda v: v.__setitem__("k", 1)),
+        ("empty-typed-list", lambda: cc.ListField(cc.IntField(), default=[]), lambda v: v.append(1)),
+        ("empty-field-set", lambda: cc.Field(default=set()), lambda v: v.add(1)),
+        ("untyped-dict-first-level", lambda: cc.DictField(default={"a": 1}), lambda v: v.__setitem__("b", 2)),
+        ("untyped-list-first-level", lambda: cc.ListField(default=[1]), lambda v: v.append(2)),
     ]
-    for i in range(n):
-        name, mk, mutate = rng.choice(makers)
+    order = list(range(len(makers)))
+    for i in range(max(n, 3 * len(makers))):
+        name, mk, mutate = makers[order[i % len(makers)]] if i < 3 * len(makers) else rng.choice(makers)
         s = cc.Schema()
-        where = rng.choice(["root", "sub", "item"])
+        where = ["root", "sub", "item"][(i // len(makers)) % 3] if i < 3 * len(makers) else rng.choice(["root", "sub", "item"])
         if where == "root":
             s.x = mk()
             get = lambda c: c
